@@ -56,6 +56,16 @@ CHECKS = {
          "spec/RewriteValue.tla states the published contract (ShapeOK) and the expected outcome of every abstract value of the grammar (short forms, response code x record type x value class with field counts and numeric bounds). TLC enumerates all of them, checks that every expected shape satisfies ShapeOK, and the harness parses 1-6 spellings of each with the real NewNetworkRule comparing error/shape/dynamic type; a seeded driver with byte mutations records every parse (twice, for determinism) and TLC validates ShapeOK on every accepted value.",
          "Trusted: TLC; the table from value classes to spellings. Mutated values are held to ShapeOK, determinism and crash-freedom only.",
          "6/C10"),
+ "C17": ("model_checking",
+         "TLC enumeration of contract URLs x PSL rule kinds with the TLA+ hostname scanner and eTLD+1 meaning replayed into NewRequest; TLC trace validation of a Public Suffix List sweep with net/url and publicsuffix answers as logged environment inputs",
+         "spec/Request.tla gives the hostname scanner over URL characters, the 4 KiB cap, lower-casing, registrable domain and third-party from PSL answers (Domains.tla). TLC enumerates scheme x host (one of every PSL rule kind, single label, IPv4) x port x tail x source, proves on the model that the scanner recovers the host of every contract URL and that third-party is symmetric, and every case is replayed into NewRequest/NewRequestForHostname/ExtractHostname. A sweep over the real Public Suffix List (all wildcard and exception rules, sampled or all others, with 0/1/2 extra labels, mixed case, >4 KiB URLs) is validated by Trace_Request, with net/url's hostname and publicsuffix's answers logged as environment inputs.",
+         "Trusted: TLC, net/url, golang.org/x/net/publicsuffix (the reference libraries the property names); the model's abstract PSL is checked against the real list on every host used.",
+         "6/C17"),
+ "C18": ("model_checking",
+         "TLC enumeration of abstract hosts(5) lines (address class x names x separators x comment shapes x trailing blanks) with the TLA+ line meaning; replay through NewRule, NewHostRule and the DNS engine",
+         "spec/HostLine.tla defines the rule a hosts line yields (address, listed names, family group, name matching) and checks that comment, separators and trailing blanks are inert; TLC enumerates every abstract line (up to 2 names quick / 3 thorough from a 4-name pool) and each is rendered in several spellings and checked through NewRule, NewHostRule and DNSEngine.Match (listed names in the right IPv4/IPv6 group; names one character shorter or longer not found).",
+         "Trusted: TLC, the table from abstract line parts to text. Comment text avoids cosmetic markers (outside the contract).",
+         "6/C18"),
 }
 
 NOT_YET = "check not built yet in this session (see DESIGN.md section 6 for the planned TLA+ decision procedure)"
